@@ -100,6 +100,8 @@ def run(pid, tier_, replay=None):
             bp.add_spans(scenarios[-1], rng)
         if (pid == "C18" and i % 3 == 0) or (pid == "C06" and i % 5 == 0):
             bp.add_deadlines(scenarios[-1], rng)
+        if pid in ("C11", "C05") and i % 3 == 0:
+            scenarios[-1]["shutctx"] = rng.choice(["cancelled", "cancelled", "deadline"])
     if pid == "C10":
         scenarios.extend(bp.race_scenarios(rng, 450 if quick else 3000, seed))
     if pid == "C11":
@@ -118,6 +120,8 @@ def run(pid, tier_, replay=None):
                 bp.add_spans(scenarios[-1], rng)
             if pid == "C18" and j % 4 == 0:
                 bp.add_deadlines(scenarios[-1], rng)
+            if pid in ("C11", "C05") and j % 3 == 0:
+                scenarios[-1]["shutctx"] = rng.choice(["cancelled", "cancelled", "deadline"])
     binp = binp_f.result()
 
     # 3. run the real processor; part of the scenarios with the channel capacity TLC explored (Q=1,2)
